@@ -46,6 +46,8 @@ namespace smt
     SMT_EXPORT var lra_theory::new_var(const lin &l) noexcept
     { // we create, if needed, a new arithmetic variable which is equal to the given linear expression..
         assert(!l.vars.empty());
+        if (const auto at_l = exprs.find(to_string(l)); at_l != exprs.cend()) // the expression (possibly a plain variable) already exists..
+            return at_l->second;
         // the rows of the tableau can only mention non-basic variables: we replace the basic ones with their rows..
         lin expr = l;
         for (const auto &[v, c] : l.vars)
